@@ -1,6 +1,6 @@
 (* C14: target files. *)
 From Coq Require Import ZArith List Bool.
-From V Require Import Base.Wire Base.Duration Base.Str Model.Flags Model.Targets Check.C19.
+From V Require Import Base.Wire Base.Duration Base.Str Model.Flags Model.Targets Model.JsonTarget Check.C19.
 Import ListNotations.
 Open Scope Z_scope.
 Open Scope rd_scope.
@@ -60,17 +60,44 @@ Definition check_http : rd verdict :=
       prop_ok 7 eager_same [] ] in
   ret (combine_verdicts [vprop; vdiff]).
 
-Definition getjline : rd jline :=
+(* a line: the meaning given by the harness's independent decoder (encoding/json), and its bytes *)
+Definition getjline : rd (jline * list Z) :=
   b <- getbool ;; t <- getbool ;; k <- getz ;;
-  if k =? 0 then ret {| j_blank := b; j_terminated := t; j_mean := JBad |}
-  else (tg <- gettgt ;; ret {| j_blank := b; j_terminated := t; j_mean := JObj tg |}).
+  if k =? 0 then (raw <- getstr ;; ret ({| j_blank := b; j_terminated := t; j_mean := JBad |}, raw))
+  else (tg <- gettgt ;; raw <- getstr ;; ret ({| j_blank := b; j_terminated := t; j_mean := JObj tg |}, raw)).
+
+(* the model's own reader of the line agrees with the independent decoder, and - where the
+   order of the header members is determined (at most one key) - the model's encoder writes the
+   very bytes the real encoder wrote *)
+Definition line_agrees (lr : jline * list Z) : bool :=
+  let '(l, raw) := lr in
+  let m := jline_of (j_terminated l) raw in
+  Bool.eqb (j_blank l) (j_blank m) &&
+  (j_blank l ||
+   match j_mean l, j_mean m with
+   | JBad, JBad => true
+   | JObj a, JObj b => target_eqb a b
+   | _, _ => false
+   end).
+Definition encoder_agrees (written : Z) (lr : jline * list Z) : bool :=
+  let '(l, raw) := lr in
+  match j_mean l with
+  | JObj t => if written =? 1 then
+                 if (length (t_header t) <=? 1)%nat then str_eqb (jt_encode t) (raw ++ [10]) else true
+              else true
+  | JBad => true
+  end.
 
 Definition check_json : rd verdict :=
-  ls <- getlist getjline ;; dbody <- getstr ;; dhdr <- gethmap ;;
+  lrs <- getlist (w <- getz ;; lr <- getjline ;; ret (w, lr)) ;; dbody <- getstr ;; dhdr <- gethmap ;;
   ncalls <- getz ;; obs <- getlist getiobs ;; defaults_same <- getbool ;;
   hasintent <- getbool ;; want <- getlist gettgt ;; eager_same <- getbool ;;
+  let ls := map (fun x => fst (snd x)) lrs in
   let model := json_calls dbody dhdr (Z.to_nat ncalls) ls in
-  let vdiff := if same_results model obs then VOk else VDiff 20 [Z.of_nat (length obs)] in
+  let vdiff := combine_verdicts
+    [ if same_results model obs then VOk else VDiff 20 [Z.of_nat (length obs)];
+      if forallb (fun x => line_agrees (snd x)) lrs then VOk else VDiff 21 [];
+      if forallb (fun x => encoder_agrees (fst x) (snd x)) lrs then VOk else VDiff 22 [] ] in
   let vprop := combine_verdicts
     [ if hasintent then prop_ok 4 (matches_intent want obs) [first_mismatch want obs; Z.of_nat (length want)] else VOk;
       prop_ok 5 (stable_all obs) [];
